@@ -14,6 +14,7 @@ every fuel, every prefix of the run whatever its end.
 -/
 import PubgrubProofs.StoreInvariant
 import PubgrubProofs.RangeAnyOrder
+import PubgrubProofs.ContainersLaws
 
 namespace Pubgrub.C06
 open Pubgrub
@@ -56,5 +57,49 @@ theorem C06_range_store_valid (W : World P (Range V) V M) (hW : W.RangesWF) (deb
   range_store_valid W hW debug fuel root rv s req h id i hi
 
 end AnyOrder
+
+/-! ### the storage of an incompatibility's terms: `SmallMap` (exact model, PubgrubModel/Containers.lean)
+
+The solver model keeps the terms of an incompatibility in an association list (`SmallMap`); the crate
+keeps them in `SmallMap<P, Term>` with variants `Empty | One | Two | Flexible(FxHashMap)`.  Every operation
+of the exact model commutes with the abstraction `toAssoc`, keeps the keys distinct, has the map
+semantics, and `merge` (used by `prior_cause`) does not depend on the order in which the hash map is
+enumerated. -/
+section Storage
+variable {K V : Type} [DecidableEq K]
+
+theorem C06_smallmap_refines (m : SmallMapX K V) (key : K) (value : V) (m2 : List (K × V))
+    (f : V → V → Option V) :
+    m.get key = SmallMap.get m.toAssoc key ∧
+    (m.insert key value).toAssoc = SmallMap.insert m.toAssoc key value ∧
+    ((m.remove key).1 = SmallMap.get m.toAssoc key ∧
+      (m.remove key).2.toAssoc = SmallMap.remove m.toAssoc key) ∧
+    (m.splitOne key).map (fun x => (x.1, x.2.toAssoc)) = SmallMap.splitOne m.toAssoc key ∧
+    (m.merge m2 f).toAssoc = SmallMap.merge m.toAssoc m2 f ∧
+    m.len = m.toAssoc.length :=
+  ⟨SmallMapX.get_eq m key, SmallMapX.toAssoc_insert m key value, SmallMapX.remove_spec m key,
+   SmallMapX.splitOne_spec m key, SmallMapX.toAssoc_merge m m2 f, SmallMapX.len_eq m⟩
+
+theorem C06_smallmap_keys_distinct (m : SmallMapX K V) (h : m.WF) (key : K) (value : V)
+    (m2 : List (K × V)) (f : V → V → Option V) :
+    (m.insert key value).WF ∧ (m.remove key).2.WF ∧ (m.merge m2 f).WF :=
+  ⟨SmallMapX.wf_insert m h key value, SmallMapX.wf_remove m h key, SmallMapX.wf_merge m h m2 f⟩
+
+theorem C06_smallmap_merge_is_pointwise (m : SmallMapX K V) (h : m.WF) (m2 : List (K × V))
+    (h2 : (m2.map Prod.fst).Nodup) (f : V → V → Option V) (k : K) :
+    (m.merge m2 f).get k =
+      match m.get k, SmallMap.get m2 k with
+      | some a, some b => f a b
+      | some a, none => some a
+      | none, some b => some b
+      | none, none => none :=
+  SmallMapX.get_merge m h m2 h2 f k
+
+theorem C06_smallmap_merge_order_independent (m : SmallMapX K V) (h : m.WF) (m2 m2' : List (K × V))
+    (hp : m2.Perm m2') (h2 : (m2.map Prod.fst).Nodup) (f : V → V → Option V) (k : K) :
+    (m.merge m2 f).get k = (m.merge m2' f).get k :=
+  SmallMapX.get_merge_perm m h m2 m2' hp h2 f k
+
+end Storage
 
 end Pubgrub.C06
